@@ -163,3 +163,22 @@ CHECKS["C01"] = {
         "sentinel." + TRUSTED
     ),
 }
+
+CHECKS["C03"] = {
+    "technique": "abstract interpretation with success/raised monitors + table agreement over resolved class hierarchy",
+    "text": (
+        "The abstract run of C01 is repeated with two more monitors (addSuccess delivered, a user exception caught): no "
+        "normal exit state combines a delivered addSuccess with a caught user exception or a forced failure, and every "
+        "such exit reports through exactly one handler. The exception_handlers table is resolved through the parsed "
+        "class hierarchy: no shadowing, Exception exactly last, each entry bound to the _report_* that calls the "
+        "matching result method once, last_resort = _report_error, onException's quiet list = the three signal "
+        "classes; the dispatch is first-match in list order; expectThat sets force_failure without raising and the "
+        "forced AssertionError is recorded before the success decision. Together these cover all ordered combinations "
+        "of exception kinds across stages, which the suite never mixes."
+    ),
+    "note": (
+        "Which of several recorded exceptions selects the outcome is the recorded known finding (last one wins: a "
+        "later skip masks an earlier failure). Paths on which an addOnException handler or a result method raises "
+        "are outside the statement." + TRUSTED
+    ),
+}
